@@ -5,7 +5,9 @@ package main
 import (
 	"bytes"
 	"encoding/json"
+	"errors"
 	"fmt"
+	"io"
 	"os"
 	"path/filepath"
 	"strings"
@@ -120,6 +122,14 @@ func checkC14(c *Ctx) {
 				meta["input"] = hx(in)
 			}
 			c.Oracle("no-panic-no-hang", what == "", "decrypt-panic-or-hang", meta, what)
+			if what == "" && v.armored {
+				// armor failures carry the armor error type wherever they surface (Decrypt or a later Read)
+				ferr := finalError(in, ids)
+				if ferr != nil && strings.Contains(ferr.Error(), "invalid armor") {
+					var ae *armor.Error
+					c.Oracle("armor-failures-carry-the-armor-error-type", errors.As(ferr, &ae), "armor-untyped-error", meta, "an armor failure reached the caller without *armor.Error: "+ferr.Error())
+				}
+			}
 			if what == "" {
 				model := c.decryptModel(in, v.armored, isx)
 				if v.armored {
@@ -175,6 +185,19 @@ func checkC14(c *Ctx) {
 	// (c) key strings and key files
 	good := rcptString(x25519Party(c.rng.bytes(32)))
 	goodID := idString(x25519Party(c.rng.bytes(32)))
+	// boundary human-readable parts, with valid checksums
+	for _, hrp := range []string{"AGE-PLUGIN-", "AGE-PLUGIN--", "AGE-PLUGIN-X", "age1", "age", "AGE-SECRET-KEY-", "AGE-SECRET-KEY", "a", "1", "AGE-PLUGIN-1-"} {
+		for _, up := range []bool{true, false} {
+			for _, syms := range [][]byte{nil, {0}, {1, 2, 3, 4}, toSyms([]byte("data"))} {
+				s := craft(hrp, syms, up)
+				what := guarded(func() {
+					c.c09Native("boundary-hrp", s, up, false)
+					c.pluginStringCase("boundary-hrp", s)
+				})
+				c.Oracle("no-panic-no-hang", what == "", "parse-panic", map[string]string{"entry": "Parse* / plugin.Parse*", "string": s}, what)
+			}
+		}
+	}
 	for k := 0; k < c.vol(400, 6000); k++ {
 		seed := []string{good, goodID, "age1verif1qqqqqq", "AGE-PLUGIN-VERIF-1QQQQQQ", "&$/A\\41KK"}[k%5]
 		s := string(mutateBytes(c.rng, []byte(seed)))
@@ -278,6 +301,16 @@ func checkC14(c *Ctx) {
 	_ = armor.Header
 	c.sample(map[string]interface{}{"entry": "age.ParseX25519Recipient", "input": "&$/A\\41KK", "note": "panicked before fix e98df61 (F2); kept as a regression seed"})
 	c.sample(map[string]interface{}{"entry": "age.Decrypt", "seed": "CCTV vector scrypt_work_factor_23", "mutations": perSeed})
+}
+
+// finalError: the error an armored decryption ends with (from Decrypt or from reading)
+func finalError(in []byte, ids []age.Identity) error {
+	r, err := age.Decrypt(armor.NewReader(bytes.NewReader(in)), ids...)
+	if err != nil {
+		return err
+	}
+	_, err = io.Copy(io.Discard, r)
+	return err
 }
 
 // coarse: ok+eof+plaintext / failed
